@@ -382,7 +382,14 @@ func (vc *VC) freshHeapVersion(hi *heapInfo, term string, bound string) {
 	case 0:
 		vc.assume("true", vc.sorts.typeInv(hi.valType, term, bound))
 	case 1:
-		inv := vc.sorts.typeInv(hi.valType, "(select "+term+" r!)", bound)
+		// contents are well typed everywhere; the reference bound (everything an existing object points to exists)
+		// is stated only for objects that exist at this version: cells of objects allocated later (e.g. by a callee
+		// that returns a fresh structure) are not constrained by it
+		x := "(select " + term + " r!)"
+		inv := vc.sorts.typeInv(hi.valType, x, "")
+		if b := vc.sorts.typeInv(hi.valType, x, bound); b != inv && bound != "" {
+			inv = sAnd(inv, sImp("(< r! "+bound+")", b))
+		}
 		if inv != "true" {
 			vc.addLine(fmt.Sprintf("(assert (forall ((r! Int)) (! %s :pattern ((select %s r!)))))", inv, term))
 		}
@@ -391,7 +398,11 @@ func (vc *VC) freshHeapVersion(hi *heapInfo, term string, bound string) {
 		if ks == "" {
 			ks = "Int"
 		}
-		inv := vc.sorts.typeInv(hi.valType, "(select (select "+term+" r!) i!)", bound)
+		x := "(select (select " + term + " r!) i!)"
+		inv := vc.sorts.typeInv(hi.valType, x, "")
+		if b := vc.sorts.typeInv(hi.valType, x, bound); b != inv && bound != "" {
+			inv = sAnd(inv, sImp("(< r! "+bound+")", b))
+		}
 		if inv != "true" {
 			vc.addLine(fmt.Sprintf("(assert (forall ((r! Int) (i! %s)) (! %s :pattern ((select (select %s r!) i!)))))", ks, inv, term))
 		}
